@@ -758,6 +758,11 @@ def m_deref(ctx):
     return [(None, r)]
 
 
+@model(r'^<(std::boxed::)?Box<.*> as Drop>::drop$|^<(Vec|std::vec::Vec)<.*> as Drop>::drop$|^<(Arc|std::sync::Arc)<.*> as Drop>::drop$')
+def m_std_drop(ctx):
+    return [(None, ())]
+
+
 @model(r'^(core::hint::|std::hint::)?must_use::<')
 def m_must_use(ctx):
     return [(None, ctx.args[0])]
@@ -828,7 +833,7 @@ def m_wrap_err(ctx):
     return on_variant(ex, st, o, {'Ok': lambda s2, o2: o2, 'Err': lambda s2, o2: enum('Result', 'Err', [as_report(payload(ex, s2, o2, 'Err'))])})
 
 
-@model(r'format_err|^eyre::private|^astria_eyre::eyre::private|Report::msg|Report::new|^eyre::Report::|^astria_eyre::eyre::Report::|ErrReport::|^anyhow::|^astria_eyre::anyhow|eyre::ensure|::into_eyre|eyre_to_anyhow|anyhow_to_eyre')
+@model(r'eyre::kind::|^Adhoc::|^Trait::|^Boxed::|::new_adhoc|format_err|^eyre::private|^astria_eyre::eyre::private|Report::msg|Report::new|^eyre::Report::|^astria_eyre::eyre::Report::|ErrReport::|^anyhow::|^astria_eyre::anyhow|eyre::ensure|::into_eyre|eyre_to_anyhow|anyhow_to_eyre')
 def m_report(ctx):
     if ctx.ret_ty.strip() in ('()',):
         return [(None, ())]
@@ -840,9 +845,13 @@ def m_report(ctx):
     return [(None, Obj('Report', kind='error'))]
 
 
-@model(r'^Arguments::|^Argument::|^Formatter::|^std::fmt::Arguments|^core::fmt::Arguments|^core::fmt::rt::|^std::fmt::rt::|^alloc::fmt::format|^std::fmt::format|fmt::Formatter|as (Display|Debug|LowerHex)>::fmt$|^alloc::string::String::|^String::|as ToString>::to_string$|^std::fmt::Write|format::')
+@model(r'^format$|^Arguments::|^Argument::|^Formatter::|^std::fmt::Arguments|^core::fmt::Arguments|^core::fmt::rt::|^std::fmt::rt::|^alloc::fmt::format|^std::fmt::format|fmt::Formatter|as (Display|Debug|LowerHex)>::fmt$|^alloc::string::String::|^String::|as ToString>::to_string$|^std::fmt::Write|format::')
 def m_fmt(ctx):
     t = ctx.ret_ty.strip()
+    if re.match(r'^<(str|std::string::String|String|&str) as (ToString|ToOwned)>::(to_string|to_owned)$', ctx.callee) or re.match(r'^(std::string::|alloc::string::)?String::(clone|as_str|to_owned)$|^<String as Clone>::clone$', ctx.callee):
+        v = ctx.ex.deref_val(ctx.st, ctx.args[0])
+        if isinstance(v, Obj):
+            return [(None, ctx.ex.copy_val(v))]      # a copy of a string is the same string (identity scalar shared through the lazy-source id)
     if t == '()':
         return [(None, ())]
     o = Obj(t, kind='fmt'); o.attrs['opaque'] = True
@@ -894,6 +903,12 @@ def m_vec(ctx):
         if op in ('to_vec', 'to_owned', 'into_vec'):
             return [(None, bytes_obj(bv))]
         return None
+    v0 = ex.deref_val(st, ctx.args[0])
+    if isinstance(v0, Obj) and 'items' not in v0.attrs and v0.kind is None and op in ('len', 'is_empty'):
+        # a container input whose contents are never inspected: only its length is observable -> an arbitrary usize (same for all copies)
+        if 'symlen' not in v0.attrs:
+            v0.attrs['symlen'] = z3.BitVec(f'len_{v0.lz}', 64)
+        return [(None, v0.attrs['symlen'] if op == 'len' else v0.attrs['symlen'] == 0)]
     v = shaped(ex, st, ctx.args[0], 'Vec')
     items = v.attrs['items']
     if op in ('push', 'push_back'):
